@@ -11,18 +11,24 @@ import (
 func registerMore(add func(PropDef)) {
 	add(PropDef{ID: "C09", Suites: func() []Suite { return suiteC09(nil) },
 		Rule: "templates of all node kinds (nesting <= 4, 35% variable slots, no ellipsis) x assignments (each variable skipped with probability 1/4, typed Go values of every accepted kind, 25% of the cases with out-of-domain or wrongly typed values, unknown keys) x splits of the assignment into 2-4 successive fills; oracles on the real code: filled = directly constructed (values substituted in the template description and built through the factories), several steps = one step; every operation also compared with the Lean model; messages: fill + producers in both orders vs NewHSMSDataMessage"})
-	add(PropDef{ID: "C04", Suites: func() []Suite { return suiteC04(nil) },
+	add(PropDef{ID: "C04", Level: "other", Suites: func() []Suite { return suiteC04(nil) },
 		Rule: "messages expressible in SML (all header variants, names incl. non-ASCII and invalid UTF-8, item trees with values, variables, length-constrained ASCII variables, nested ellipses) built through the factories, printed, re-parsed: one message, no diagnostics, same fields/variables/printed form, same bytes once completed; every ASCII character 0..127 in four string contexts; accepted random-layout texts: printed form is a fixed point; every text also compared with the Lean lexer+parser model"})
 	add(PropDef{ID: "C05", Suites: func() []Suite { return suiteC05(nil) },
 		Rule: "texts rendered from item descriptions with varied literal forms (decimal/hex/octal/leading-0 octal/binary with sign and letter case, floats as e/f/g/exact 40-digit forms, strings split into quoted runs and character codes): parsed values must equal the described values (built independently through the factories); one unrepresentable literal (out of range, wrong syntax, wrong type, non-ASCII) in each of three positions for all item types: at least one error and no message; results also compared with the Lean model (decisive on messages and error kinds)"})
 	add(PropDef{ID: "C06", Suites: func() []Suite { return suiteC06(nil) },
 		Rule: "hostile inputs parsed in an isolated worker process (6 GiB address-space limit, 20 s watchdog): token soups over the SML vocabulary with exotic white space / invalid UTF-8 / huge numbers and sizes, byte-level mutations of valid texts, random bytes, deep nesting and the known hostile sizes; outcome must be a normal return with errors => no messages and every diagnostic position inside the input; results compared with the Lean model"})
-	add(PropDef{ID: "C08", Suites: func() []Suite { return suiteC08(nil) },
+	add(PropDef{ID: "C08", Level: "other", Suites: func() []Suite { return suiteC08(nil) },
 		Rule: "token sequences (valid messages, mutated invalid ones, several messages) rendered under a plain and a random layout (blank kinds and amounts, CRLF, comments with arbitrary bytes incl. UTF-8 tails 0x85/0xA0, \\v, \\f, keyword/prefix case): messages equal and diagnostics equal after mapping positions to the tokens they point at; comments with random bytes appended to any line of printed messages; both renderings compared with the Lean model"})
 	add(PropDef{ID: "C15", Suites: func() []Suite { return suiteC15(nil) },
 		Rule: "all four declaration forms x 14 item types x (lower, upper, count) in [0,4]^3 (thorough [0,6]^3, quick a random third): accepted iff within bounds, error at the declaration otherwise; huge and overflowing bounds against big-integer arithmetic; ASCII variables in all four forms: bounds printed back, fills of every length 0..max+1 accepted iff inside; compared with the Lean model"})
-	add(PropDef{ID: "C19", Suites: func() []Suite { return suiteC19(nil) },
+	add(PropDef{ID: "C19", Level: "other", Suites: func() []Suite { return suiteC19(nil) },
 		Rule: "2-3 accepted texts (printed or randomly laid out, deliberately reusing variable names and ellipses) joined by separators (nothing, blanks, line breaks, comments): same messages in order as parsing each alone, no errors; compared with the Lean model"})
+	add(PropDef{ID: "C07", Suites: func() []Suite { return suiteC07(nil) },
+		Rule: "byte strings decoded in an isolated worker process (8 GiB address-space limit, 30 s watchdog) with runtime.MemStats.TotalAlloc measured per call: short inputs declaring huge lengths for all 14 formats x 1/2/3 length bytes x nesting depths 0..100 (thorough ..1000) x three tails; chains of list headers declaring huge counts; valid messages, their structured corruptions, random bytes; 1 KB / 64 KB / 1 MB strings complete and truncated; bound checked: allocated <= 4096*len + 65536; inputs up to 4 KB are also compared with the Lean decoder"})
+	add(PropDef{ID: "C11", Level: "proof", Suites: func() []Suite { return suiteC11(nil) },
+		Rule: "random histories (10-60 steps) over a growing pool of items, data messages and control messages: factories fed caller-held slices that are overwritten afterwards, producers, accessors and encoders whose results are overwritten or sorted, fills whose map is overwritten, responses built from pooled requests, decoding from a buffer with spare capacity that is then overwritten, SML parsing; after every step every pooled object is compared with its first snapshot (String, ToBytes, Variables, Size, header accessors)"})
+	add(PropDef{ID: "C17", Level: "other", Suites: func() []Suite { return suiteC17(nil) },
+		Rule: "race-detector build of the harness: 8 goroutines x 60 calls x 6 rounds per run on shared items and messages (print, encode, list, fill incl. ellipsis expansion minting new names, producers) and concurrent sml.Parse / hsms.Parse; every concurrent result compared with the same call alone; any DATA RACE report, fatal error or differing result is a violation"})
 	add(PropDef{ID: "C10", Suites: func() []Suite { return suiteC10(nil) },
 		Rule: "list templates with nested ellipses (depth <= 3, counts 0..3; deeper and counts up to 12 in a second suite) x partial or total assignments of repeat counts; result compared with the Lean model of the expansion; oracles on the real code: count law (n+1)*p + (len-p-1), no duplicate names, remaining ellipses renumbered in order, every generated name addressable by a later fill"})
 }
